@@ -339,6 +339,40 @@ def ob_error_discipline(run, oid):
             o.check(not errs, "handle_disseminator_shred|invalid-shred-dropped", "an invalid shred is dropped (no Err constructed from the validation failure)", c.span)
 
 
+def ob_own_slots_not_ingested(run, oid):
+    """the reviewed reason of the panics in BlockData::add_own_slice is 'own slices only': shreds from the network never enter the data of a slot this node leads"""
+    prog = run.program("lib")
+    o = run.ob(oid, "handle_disseminator_shred hands a shred to the blockstore only when this node is not the slot's leader",
+               "BlockData::add_own_slice panics when a slice of the own block is already there ('added twice' / 'added after the last slice'): if a relay can "
+               "echo the leader's shred into the leader's own block data first, one datagram kills block production", floor=1)
+    fam = [b for b in prog.family(A + "consensus::Alpenglow::handle_disseminator_shred") if b.is_closure]
+    if not fam:
+        o.missing("Alpenglow::handle_disseminator_shred")
+        return o
+    n = 0
+    for b in fam:
+        for c in b.calls():
+            if not c.name.endswith("add_shred_from_dissemination"):
+                continue
+            n += 1
+            g = None
+            for a in G.guard_atoms(b, c.bb, prog):
+                if a[0] in ("eq", "ne") and len(a[1]) == 2:
+                    l, r = a[1]
+                    both = (K.mentions_call(l, "EpochInfo::leader") and K.mentions_call(r, "::own_id")) or (K.mentions_call(r, "EpochInfo::leader") and K.mentions_call(l, "::own_id"))
+                    differ = (a[0] == "eq" and a[2] is False) or (a[0] == "ne" and a[2] is True)
+                    if both and differ:
+                        g = a
+            o.check(g is not None, "handle_disseminator_shred|add_shred_from_dissemination|not-own-slot", "guarded by leader(slot).id != own_id()", c.span, {"guards": K.show_atoms(prog, b, c.bb)})
+            if g is not None:
+                lt = g[1][0] if K.mentions_call(g[1][0], "EpochInfo::leader") else g[1][1]
+                o.check(K.mentions_field(lt, "slot") and K.mentions(lt, lambda y: isinstance(y, tuple) and y and y[0] in ("param", "upvar", "local")), "handle_disseminator_shred|leader-of-the-shreds-slot",
+                        "the leader compared is the leader of the shred's own slot", c.span, {"leader": mir.show(lt)[:100]})
+    if n == 0:
+        o.missing("add_shred_from_dissemination call in handle_disseminator_shred")
+    return o
+
+
 def ob_recv_flags(run, oid):
     """the reviewed reason for `&scratch[i][..len]` in UdpNetwork::recv_batch is 'len <= buffer size because MSG_TRUNC is not requested': decide that"""
     prog = run.program("lib")
@@ -361,6 +395,11 @@ def ob_recv_flags(run, oid):
 
 def check(run):
     ob_recv_flags(run, "O10.7")
+    ob_own_slots_not_ingested(run, "O10.1m")
+    # "...or wedges a node": a response that does not verify must leave the request outstanding, so that the timeout re-issues it
+    from . import C14 as _C14w
+    with run.restricted(lambda oid: oid == "O10.9.2"):
+        _C14w.check(run, prefix="O10.9", compose=False)
     from . import detectors as _DL
     _DL.ob_loop_exits(run, "O10.6", ['consensus', 'repair::', 'shredder'], 'a message loop or per-element handler that can be left early stops serving')
     ob_panic_closure(run, "O10.1")
